@@ -1,3 +1,7 @@
 import Audit.Tool
 import FluteModel.Props.C01
+-- tie of the Session model's sender to the BlockEnc model (agent benc): Flute.Props.C01.Link
+import FluteModel.Props.C01Link
+-- one reference predicate for add_object admission, equivalent to the three component models' (agent toi): Flute.Props.C01.Admission
+import FluteModel.Props.AdmissionLink
 #audit_ns Flute.Props.C01
